@@ -90,6 +90,23 @@ class DataBase:
         """
         raise NotImplementedError("Remove Method not overriden")
 
+    def remove_by_id(self, index: int) -> bool:
+        """
+        Remove the data object stored under the given identifier.
+
+        Parameters
+        ----------
+        index : int
+            Identifier of the data object.
+
+        Returns
+        -------
+        bool
+            True if an object was removed, False if the identifier is unknown.
+        """
+        data = self.get(index)
+        return data is not None and bool(self.remove(data))
+
     def all(self) -> tuple:
         """
         Get all data from the database.
